@@ -6,7 +6,8 @@ from wire import f2h
 
 KATS = {
     # Rrtk.Thm.C06.Binary32Examples.exTimes_eq : the test-suite profile has t2 = 30.000001024 s in binary32 (30 s in exact arithmetic)
-    "C06": [dict(theorem="Rrtk.Thm.C06.Binary32Examples.exTimes_eq",
+    # (filed under C07: the phase durations are C07's numbers; C06 owns the agreement of the accessors, whatever the durations are)
+    "C07": [dict(theorem="Rrtk.Thm.C06.Binary32Examples.exTimes_eq",
                  case="mp 00000000/00000000/00000000 40400000/00000000/00000000 Q:%s:1,-1 Q:%s:1,-2 0" % (f2h(0.1), f2h(0.01)),
                  expect={0: "T:10000000000", 1: "T:30000001024", 2: "T:40000000000"})],
     # Rrtk.Thm.C04.Binary32Examples.pidVal_eq : setpoint 1e9, gains 1.5, fl(1/3), 2^-149; history with an absent and an errored input
